@@ -1,2 +1,7 @@
 -- Root of the `Hfsm` library: model, proofs, property theorems, transcript replayers.
 import Hfsm.Drive.Common
+import Hfsm.Model.Shape
+import Hfsm.Model.Basic
+import Hfsm.Model.Callback
+import Hfsm.Model.Tree
+import Hfsm.Model.Forward
